@@ -1,9 +1,9 @@
 (* driver.ml (C18) — line protocol for the tx pool accounting oracle; keeps the model pool between lines; no logic.
    reset
-   add h origin deleg|- exe(0/1) payer|- cost pgp time limit balance   -> ok|dup|quota|dquota|payer
+   add h origin deleg|- exe(0/1) payer|- cost pgp time limit balance local -> ok|dup|quota|dquota|payer
    rm h                                                                -> 1|0
    promote h                                                           -> 1|0
-   fill h origin deleg|- time  [h origin deleg time ...]               -> len
+   fill h origin deleg|- time local [h origin deleg time local ...]               -> len
    price h payer cost pgp                                              -> ok
    q addr [addr ...]                                                   -> quota|- cost holds  (per address, ';' separated) *)
 open Model
@@ -14,8 +14,8 @@ let st = ref empty_pool
 let opt_n s = if s = "-" then None else Some (n_of_hex s)
 
 let rec fill_objs = function
-  | h :: o :: d :: t :: rest ->
-    { hash = n_of_hex h; origin = n_of_hex o; delegator = opt_n d; executable = false; price = None; time_added = n_of_hex t }
+  | h :: o :: d :: t :: l :: rest ->
+    { hash = n_of_hex h; origin = n_of_hex o; delegator = opt_n d; executable = false; price = None; time_added = n_of_hex t; local_ = bool_of_tok l }
     :: fill_objs rest
   | [] -> []
   | _ -> failwith "bad fill"
@@ -23,8 +23,8 @@ let rec fill_objs = function
 let handle line =
   match split_ws line with
   | ["reset"] -> st := empty_pool; "ok"
-  | ["add"; h; o; d; exe; py; c; g; t; limit; bal] ->
-    let obj = { hash = n_of_hex h; origin = n_of_hex o; delegator = opt_n d; executable = false; price = None; time_added = n_of_hex t } in
+  | ["add"; h; o; d; exe; py; c; g; t; limit; bal; l] ->
+    let obj = { hash = n_of_hex h; origin = n_of_hex o; delegator = opt_n d; executable = false; price = None; time_added = n_of_hex t; local_ = bool_of_tok l } in
     let pr = (match opt_n py with Some p -> Some { payer = p; pcost = n_of_hex c; pgp = n_of_hex g } | None -> None) in
     let b = n_of_hex bal in
     let (p', r) = add0 !st obj (bool_of_tok exe) pr (n_of_hex limit) (fun _ -> b) in
@@ -35,6 +35,71 @@ let handle line =
   | "fill" :: rest -> st := fill !st (fill_objs rest); string_of_int (int_of_nat (length !st.objs))
   | ["price"; h; py; c; g] ->
     st := set_pricing !st (n_of_hex h) { payer = n_of_hex py; pcost = n_of_hex c; pgp = n_of_hex g }; "ok"
+  | "wash" :: limit :: rest ->
+    (* wash LIMIT h:blocked:outlived:verdict ... | payer=energy ...   verdict = E<class> | N | Y | Y,payer,cost,pgp
+       the model pool is NOT advanced (the harness replays the observed transitions afterwards) *)
+    let (objs_t, en_t) = (match split_on "|" rest with [a; b] -> (a, b) | [a] -> (a, []) | _ -> failwith "bad wash") in
+    let tbl = Hashtbl.create 64 in
+    List.iter (fun tok -> match String.split_on_char ':' tok with
+        | [h; b; o; v] ->
+          let ev = if v = "N" then EvNo
+            else if v.[0] = 'E' then EvErr (n_of_hex (String.sub v 1 (String.length v - 1)))
+            else (match String.split_on_char ',' v with
+                | ["Y"] -> EvYes None
+                | ["Y"; py; c; g] -> EvYes (Some { payer = n_of_hex py; pcost = n_of_hex c; pgp = n_of_hex g })
+                | _ -> failwith "bad verdict") in
+          Hashtbl.replace tbl h (bool_of_tok b, bool_of_tok o, ev)
+        | _ -> failwith "bad wash object") objs_t;
+    let en = Hashtbl.create 16 in
+    List.iter (fun tok -> match String.split_on_char '=' tok with
+        | [a; v] -> Hashtbl.replace en a (n_of_hex v) | _ -> failwith "bad energy") en_t;
+    let look o = (match Hashtbl.find_opt tbl (hex_of_n o.hash) with Some x -> x | None -> failwith "wash: object without verdict") in
+    let env = { w_blocked = (fun o -> let (b, _, _) = look o in b); w_outlived = (fun o -> let (_, x, _) = look o in x);
+                w_eval = (fun o -> let (_, _, e) = look o in e); w_refresh = (fun _ -> None);
+                w_energy = (fun a -> match Hashtbl.find_opt en (hex_of_n a) with Some v -> v | None -> N0);
+                w_limit = nat_of_int (int_of_string limit) } in
+    let r = wash env !st in
+    let reason = function RBlocked -> "blocked" | ROutlived -> "outlived" | REvalErr c -> "err" ^ hex_of_n c
+                        | RLimitNonExecAll -> "lim1n" | RLimitExecTail -> "lim1e" | RLimitTotal -> "lim2"
+                        | RLimitNonExec -> "lim3" | RUnpayable -> "unpay" in
+    "pub " ^ String.concat " " (List.map (fun o -> hex_of_n o.hash) r.wr_published) ^ " | rm " ^
+    String.concat " " (List.sort compare (List.map (fun (h, x) -> hex_of_n h ^ ":" ^ reason x) r.wr_removed))
+  | "adm" :: rest ->
+    (* adm next gaslimit nexttime vip191 galactica blocklist known dep(-|n|0|1)
+         | id gas ref exp legacy delegated unknownfeat dep(-|id) tagok originblocked delegextract delegblocked
+         | feeok energy_at_next_time
+         | gas_used gas_limit time energy_at_flow_time minfee effprio processed_self(0/1) processed_dep(-|0|1) *)
+    (match split_on "|" rest with
+     | [ [next; gl; nt; v191; gal; bl; known; depst];
+         [id; gas; rf; ex; legacy; deleg; unk; dep; tag; ob; dx; db];
+         [feeok; en1];
+         [gu; fgl; ft; en2; minfee; effp; pself; pdep] ] ->
+       let b = bool_of_tok in
+       let depo = opt_n dep in
+       let t = { t_id = n_of_hex id; t_gas = n_of_hex gas; t_blockref = n_of_hex rf; t_expiration = n_of_hex ex;
+                 t_legacy = b legacy; t_delegated = b deleg; t_unknown_features = b unk; t_dep = depo;
+                 t_chain_tag_ok = b tag; t_origin_blocked = b ob; t_deleg_extractable = b dx; t_deleg_blocked = b db } in
+       let tri s = if s = "-" || s = "n" then None else Some (b s) in
+       let h = { h_next = n_of_hex next; h_gas_limit = n_of_hex gl; h_next_time = n_of_hex nt; h_vip191 = n_of_hex v191;
+                 h_galactica = n_of_hex gal; h_blocklist = n_of_hex bl;
+                 h_known = (fun _ _ -> b known); h_dep = (fun _ -> tri depst) } in
+       let ntime = n_of_hex nt in
+       let fee_ok () _ = b feeok in
+       let energy_ok () tm _ = if tm = ntime then b en1 else b en2 in
+       let f = { f_gas_used = n_of_hex gu; f_gas_limit = n_of_hex fgl; f_time = n_of_hex ft; f_state = ();
+                 f_processed = (fun i -> if i = t.t_id then (if b pself then Some false else None)
+                                 else (match depo with Some d when d = i -> tri pdep | _ -> None));
+                 f_min_priority_fee = n_of_hex minfee } in
+       let ev = evaluate fee_ok energy_ok (n_of_int 30) h () t in
+       let ad = adopt fee_ok energy_ok (fun () _ -> n_of_hex effp) h f t in
+       let evs = (match ev with VExecutable -> "exec" | VNotYet -> "notyet"
+                               | VErr e -> "err:" ^ (match e with EGasAboveBlockLimit -> "gas" | EExpired -> "expired"
+                                   | ERefOutOfSchedule -> "schedule" | ETypeNotSupported -> "type" | EFeatures -> "features"
+                                   | EKnownTx -> "known" | EDepReverted -> "depreverted" | EBuyGas -> "buygas")) in
+       let ads = (match ad with AOk -> "ok" | ABad _ -> "bad" | ANotNow _ -> "notnow" | AGasLimitReached -> "gaslimit"
+                               | AKnownTx -> "known" | ANotForever -> "forever") in
+       evs ^ " " ^ ads ^ " " ^ tok_of_bool (pool_static t)
+     | _ -> failwith "bad adm")
   | "q" :: addrs ->
     String.concat " ; " (List.map (fun a ->
         let a = n_of_hex a in
